@@ -147,7 +147,7 @@ func distinctPair(t *rapid.T, g *rapid.Generator[[]byte], n int) (a, b [][]byte)
 
 func TestType1(t *testing.T) {
 	s := rt.S("type1").SetRule(rule)
-	rt.Check(t, 60, 5000, func(t *rapid.T) {
+	rt.Check(t, 60, 15000, func(t *rapid.T) {
 		defer rt.Entropy(gen.Seed().Draw(t, "entropy"))()
 		key := gen.OPRFKey(oprf.SuiteP384, gen.Seed().Draw(t, "keyseed"))
 		issuer := type1.NewBasicPrivateIssuer(key)
@@ -180,7 +180,7 @@ func TestType1(t *testing.T) {
 
 func TestType5(t *testing.T) {
 	s := rt.S("type5").SetRule(rule)
-	rt.Check(t, 100, 5000, func(t *rapid.T) {
+	rt.Check(t, 100, 20000, func(t *rapid.T) {
 		defer rt.Entropy(gen.Seed().Draw(t, "entropy"))()
 		key := gen.OPRFKey(oprf.SuiteRistretto255, gen.Seed().Draw(t, "keyseed"))
 		issuer := type5.NewBatchedPrivateIssuer(key)
@@ -231,7 +231,7 @@ func TestType5(t *testing.T) {
 
 func TestType2(t *testing.T) {
 	s := rt.S("type2").SetRule(rule)
-	rt.Check(t, 100, 5000, func(t *rapid.T) {
+	rt.Check(t, 100, 20000, func(t *rapid.T) {
 		defer rt.Entropy(gen.Seed().Draw(t, "entropy"))()
 		key := gen.RSAPool()[gen.RSAKey().Draw(t, "rsakey")]
 		issuer := type2.NewBasicPublicIssuer(key)
@@ -271,7 +271,7 @@ func TestType2(t *testing.T) {
 // reuses one buffer for successive challenges / nonces must get what fresh buffers would give.
 func TestArgumentBufferReuse(t *testing.T) {
 	s := rt.S("argument-buffer-reuse").SetRule("types 1, 2, 5 with fixed key, blinds and salt: issuance for (challenge A, nonces A) held in caller buffers; the buffers are then overwritten IN PLACE with (challenge B, nonces B) of the same lengths and issuance is run again from the same buffers; request and token bytes must equal those of an issuance from fresh copies of B. non-trivial = A != B; distinct by (type, A, B)")
-	rt.Check(t, 90, 6000, func(t *rapid.T) {
+	rt.Check(t, 90, 20000, func(t *rapid.T) {
 		defer rt.Entropy(gen.Seed().Draw(t, "entropy"))()
 		typ := gen.Pick(t, []uint16{1, 2, 5}, "type")
 		n := 1
